@@ -65,9 +65,6 @@ func ruleRejectSet(specs []rejectSpec) func(c *Ctx) {
 					return false
 				}
 				sp.Eval = func(t *Tracer, fr *Frame, cond ssa.Value) (bool, bool) {
-					if fr != t.RootFr {
-						return false, false
-					}
 					x, op, k, ok := cmpConst(cond)
 					if !ok {
 						// comparison with a typed rune constant
@@ -78,7 +75,17 @@ func ruleRejectSet(specs []rejectSpec) func(c *Ctx) {
 							}
 						}
 					}
-					if !ok || !isRune(x) {
+					if !ok {
+						return false, false
+					}
+					// the scanned character itself, or — in a predicate helper the character was handed to
+					// (`isPatternChar(c)`) — the parameter that stands for it
+					if fr != t.RootFr {
+						rx := t.Resolve(fr, x)
+						if rx.Fr != t.RootFr || !isRune(rx.V) {
+							return false, false
+						}
+					} else if !isRune(x) {
 						return false, false
 					}
 					return evalIntCmp(op, int64(ch), k)
